@@ -86,7 +86,7 @@ func parallel(n int, f func(i int)) {
 				}(i)
 				select {
 				case <-done:
-				case <-time.After(curCaseLimit() + 3*time.Second):
+				case <-time.After(curCaseLimit() + maxCaseExtra + 3*time.Second):
 				}
 			}
 		}()
@@ -139,6 +139,9 @@ const caseLimit = 100 * time.Second
 
 var hangsReported atomic.Int64
 
+// maxCaseExtra bounds what watchCaseExtra may add
+const maxCaseExtra = 300 * time.Second
+
 // once several cases have hung the defect is established: later cases get a short limit, so that a
 // run in which every case hangs still ends within the driver's time limit
 func curCaseLimit() time.Duration {
@@ -152,6 +155,7 @@ type inflightCase struct {
 	start    time.Time
 	replay   interface{}
 	reported bool
+	extra    time.Duration // added to the limit: cases that legitimately wait out many timeouts
 }
 
 var (
@@ -163,14 +167,18 @@ var (
 // watchCase registers a running case and returns the function to defer: it reports a panic in the
 // caller's goroutine as a failing case (recoverCase) and unregisters the case.  A monitor reports
 // every case still running after caseLimit, with its replay.
-func watchCase(id string, replay interface{}) func() {
+func watchCase(id string, replay interface{}) func() { return watchCaseExtra(id, replay, 0) }
+
+// watchCaseExtra: as watchCase, for a case whose own configuration makes it wait (so many
+// operations that each run into their timeout): extra is added to the monitor's limit.
+func watchCaseExtra(id string, replay interface{}, extra time.Duration) func() {
 	inflightOnce.Do(func() {
 		go func() {
 			for {
 				time.Sleep(500 * time.Millisecond)
 				inflightMu.Lock()
 				for cid, e := range inflight {
-					if !e.reported && time.Since(e.start) > curCaseLimit() {
+					if !e.reported && time.Since(e.start) > curCaseLimit()+e.extra {
 						e.reported = true
 						hangsReported.Add(1)
 						prop := cid
@@ -186,7 +194,7 @@ func watchCase(id string, replay interface{}) func() {
 		}()
 	})
 	inflightMu.Lock()
-	inflight[id] = &inflightCase{start: time.Now(), replay: replay}
+	inflight[id] = &inflightCase{start: time.Now(), replay: replay, extra: extra}
 	inflightMu.Unlock()
 	return func() {
 		inflightMu.Lock()
